@@ -37,6 +37,9 @@ type scen struct {
 	mixed       bool   // random-mixed-bits stream: makeBlock picks light / heavy difficulty bits per block
 	quietBase   bool   // while true, the oracle is not asked for the full dump
 	bulk        bool   // long base chains: full observation only every 97th delivery, tip/outcome always
+	deepReorg   bool   // the scenario has built a fork deeper than the 2560 undo files kept (known finding deep-reorg-pruned-undo-panic)
+	noModel     bool   // the Lean model is not consulted (one scenario outside the theorems' domain whose 8000-node tree costs the
+	// list-based model a quarter of an hour): real code against the reference only
 
 	keys   map[string]*chainkit.Key
 	badTx  map[[32]byte]bool // txids whose scripts fail (generator's label)
@@ -396,7 +399,7 @@ func (s *scen) observe(kind, outcome, modelReply string, fullDump bool) {
 	r.Eval(kind, tipHex+chainkit.DumpHash(real)+outcome)
 	r.Hit("outcome/" + strings.SplitN(outcome, " ", 2)[0])
 	if strings.HasPrefix(outcome, "panic:") {
-		if strings.Contains(outcome, "undo") && strings.Contains(outcome, "no such file") && strings.HasPrefix(modelReply, "panic:undo file missing") {
+		if strings.Contains(outcome, "undo") && strings.Contains(outcome, "no such file") && (strings.HasPrefix(modelReply, "panic:undo file missing") || (s.noModel && s.deepReorg)) {
 			// narrow class: a reorganisation reaching below the pruned undo files (more than 2560 blocks), predicted by the model
 			s.propFail("deep-reorg-pruned-undo-panic", "a reorganisation deeper than the 2560 undo files kept panics in UndoBlockTxs after the block's outputs were already deleted (the UTXO set is left half-undone): "+outcome)
 			return
@@ -478,6 +481,9 @@ func (s *scen) observe(kind, outcome, modelReply string, fullDump bool) {
 		return
 	}
 	// (a) the model
+	if s.noModel {
+		return
+	}
 	f := strings.Fields(modelReply)
 	if len(f) != 5 {
 		s.tieFail("tie-reply", "malformed oracle reply: "+modelReply)
@@ -550,7 +556,10 @@ func (s *scen) deliver(b *rBlock) string {
 		s.failedReorg = true
 	}
 	full := !s.quietBase
-	rep := o.MustAsk(s.oracleDeliverLine(b, full))
+	rep := ""
+	if !s.noModel {
+		rep = o.MustAsk(s.oracleDeliverLine(b, full))
+	}
 	if strings.HasPrefix(out, "check:") || strings.HasPrefix(out, "accept:") || strings.HasPrefix(out, "parse:") {
 		s.tieFail("tie-unexpected-refusal", "block refused for a reason outside the model: "+out)
 		return out
@@ -559,7 +568,11 @@ func (s *scen) deliver(b *rBlock) string {
 		tipHex, _ := s.k.Tip()
 		f := strings.Fields(rep)
 		r.Eval("deliver-bulk", "")
-		if len(f) != 5 || f[0] != out || f[1] != tipHex {
+		if s.noModel {
+			if x := s.byHash[s.k.Ch.LastBlock().BlockHash.Hash]; x == nil || x != specTip(s.blocks) {
+				s.propFail("not-most-work", "bulk delivery (no model): the tip is not the reference's first-seen most-work valid block")
+			}
+		} else if len(f) != 5 || f[0] != out || f[1] != tipHex {
 			s.tieFail("tie-deliver", "model/impl differ (bulk): impl "+out+" "+tipHex[:16]+" model "+firstN(rep, 90))
 		} else {
 			r.TieOK()
